@@ -101,9 +101,11 @@ void AsyncSim::setup() {
 		std::string key, login;
 		for (size_t k = 0; k < keylen; k++) key.push_back((char)('A' + (k * 7 + i * 3 + (k >> 5)) % 26));
 		for (size_t k = 0; k < loginlen; k++) login.push_back((char)('a' + (k * 5 + i) % 26));
+		e.cred_in_uri = plan.c("cred_in_uri", 0) != 0 && !e.http;   // login and key travel in the URI; the key contains a colon
+		if (e.cred_in_uri && key.size() >= 3) key[key.size() / 2] = ':';
 		e.cfg.key = key; e.cfg.login = login;
 		e.net_ep = N.add_endpoint(e.host, e.port);
-		e.uri = (e.http ? "ksi+http://" : "ksi+tcp://") + e.host + ":" + std::to_string(e.port) + (e.http ? "/svc" + std::to_string(i) : "");
+		e.uri = (e.http ? "ksi+http://" : "ksi+tcp://") + (e.cred_in_uri ? login + ":" + key + "@" : "") + e.host + ":" + std::to_string(e.port) + (e.http ? "/svc" + std::to_string(i) : "");
 		eps.push_back(e);
 	}
 	(void)res;
@@ -131,8 +133,8 @@ bool AsyncSim::create_service() {
 	else res = svc_ext ? KSI_ExtendingAsyncService_new(ctx, &svc) : KSI_SigningAsyncService_new(ctx, &svc);
 	if (res != KSI_OK) { K.inconclusive = true; K.inconclusive_why = "service_new failed"; return false; }
 	for (auto &e : eps) {
-		res = ha ? KSI_AsyncService_addEndpoint(svc, e.uri.c_str(), e.cfg.login.c_str(), e.cfg.key.c_str())
-		         : KSI_AsyncService_setEndpoint(svc, e.uri.c_str(), e.cfg.login.c_str(), e.cfg.key.c_str());
+		res = ha ? KSI_AsyncService_addEndpoint(svc, e.uri.c_str(), e.cred_in_uri ? NULL : e.cfg.login.c_str(), e.cred_in_uri ? NULL : e.cfg.key.c_str())
+		         : KSI_AsyncService_setEndpoint(svc, e.uri.c_str(), e.cred_in_uri ? NULL : e.cfg.login.c_str(), e.cred_in_uri ? NULL : e.cfg.key.c_str());
 		if (res != KSI_OK) { K.inconclusive = true; K.inconclusive_why = "setEndpoint failed"; return false; }
 	}
 	KSI_AsyncService_setOption(svc, KSI_ASYNC_OPT_REQUEST_CACHE_SIZE, (void *)cache);
